@@ -584,7 +584,28 @@ def _comprehension_symbolic(I, e, g, st, itv, ctx, kind):
 
 def eval_comprehension(I, e, st, ctx, kind):
     if len(e.generators) != 1:
-        raise OutOfReach("comprehension with several generators")
+        if kind not in ("list", "gen"):
+            raise OutOfReach("dict/set comprehension with several generators")
+        # [elt for a in A for b in B]  ==  flatten([[elt for b in B] for a in A])
+        inner = ast.copy_location(ast.ListComp(elt=e.elt, generators=e.generators[1:]), e)
+        outer = ast.copy_location(ast.ListComp(elt=inner, generators=[e.generators[0]]), e)
+        ast.fix_missing_locations(outer)
+        out = []
+        for (q, v) in eval_comprehension(I, outer, st, ctx, "list"):
+            if isinstance(v, Raise):
+                out.append((q, v))
+                continue
+            rows = I.known_items(q, v)
+            if rows is None:
+                raise OutOfReach("comprehension with several generators over a symbolic iterable")
+            flat = []
+            for row in rows:
+                its = I.known_items(q, row)
+                if its is None:
+                    raise OutOfReach("comprehension with several generators over a symbolic iterable")
+                flat += its
+            out.append((q, I.make_list(q, flat) if kind == "list" else TupV(flat)))
+        return out
     g = e.generators[0]
     if g.is_async:
         raise OutOfReach("async comprehension")
